@@ -100,6 +100,30 @@ def run_plan(c):
         gfm.interp1d, gfm.lagrange = old
 
 
+def run_rebracket(c):
+    """one GHE object whose long-time family is recomputed for other height brackets after it was used: at every stored height of the current
+    family the curve handed to the simulation must carry that height's stored, radius-corrected values on the long-time points"""
+    import ghe_drv
+    g = ghe_drv.build(c)
+    out = {"ok": True, "stages": []}
+    for (lo, hi) in c["brackets"]:
+        g.sim_params.min_height, g.sim_params.max_height = lo, hi
+        g.compute_g_functions()
+        G = g.gFunction
+        st = {"bracket": [lo, hi], "heights": [float(h) for h in G.g_lts.keys()], "at": []}
+        for h in list(G.g_lts.keys()):
+            try:
+                gf, gb = g.grab_g_function(g.B_spacing / h)
+                nl = len(G.log_time)
+                want = [v - math.log(g.bhe.b.r_b / G.r_b_values[h]) for v in G.g_lts[h]]
+                st["at"].append({"h": float(h), "ok": True, "dev": float(max(abs(a - b) for a, b in zip([float(v) for v in gf.y][-nl:], want))),
+                                 "increasing": bool(all(b > a for a, b in zip(gf.x, gf.x[1:])))})
+            except Exception as ex:
+                st["at"].append({"h": float(h), "ok": False, "exc": type(ex).__name__, "msg": str(ex)[:160]})
+        out["stages"].append(st)
+    return out
+
+
 def ierf(x):
     from scipy.special import erf
     return x * erf(x) - (1 - np.exp(-x * x)) / np.sqrt(np.pi)
@@ -162,7 +186,7 @@ def run_fls(c):
 
 if __name__ == "__main__":
     p = read_payload()
-    fn = {"combine": run_combine, "interp": run_interp, "ghe": run_ghe, "fls": run_fls, "plan": run_plan}[p["mode"]]
+    fn = {"combine": run_combine, "interp": run_interp, "ghe": run_ghe, "fls": run_fls, "plan": run_plan, "rebracket": run_rebracket}[p["mode"]]
     res = []
     for c in p["cases"]:
         try:
